@@ -371,7 +371,15 @@ class Parser:
             # closure with simple identifier parameters: |c| expr
             self.next(); ps = []
             while not self.at("|"):
-                self.opt("&"); ps.append(self.next()[1]); self.opt(",")
+                self.opt("&")
+                if self.at("("):        # tuple pattern: |(i, pos)| expr
+                    self.next(); names = []
+                    while not self.at(")"):
+                        self.opt("&"); names.append(self.next()[1]); self.opt(",")
+                    self.eat(")"); ps.append(tuple(names))
+                else:
+                    ps.append(self.next()[1])
+                self.opt(",")
             self.eat("|")
             return ("closure", ps, self.expr())
         if v == "while":
